@@ -572,7 +572,6 @@ func runC02(c *Ctx) {
 	for i := range trees {
 		trees[i] = g.doc(1 + i%4)
 	}
-	var mu sync.Mutex
 	type res struct {
 		ser   string
 		md    [4][]byte
